@@ -1,8 +1,15 @@
 // ---- the Process protocol (src/processor.rs: trait Process), DESIGN §4.3 ----
 #[verifier::external_body]
 pub struct ProcessError { _p: () }
+// the variant constructor used by TextProcess::start (the enum itself stays opaque: only Ok/Err matters to the contracts)
+impl ProcessError {
+    #[allow(non_snake_case)]
+    #[verifier::external_body]
+    pub fn InvalidInputError(msg: &'static str) -> Self { unimplemented!() }
+}
 pub type ProcessResult<T> = std::result::Result<T, ProcessError>;
 
+pub open spec fn title_values(n: Seq<String>) -> Seq<Option<JsonValue>> { Seq::new(n.len(), |i: int| Some(JsonValue::String(n[i]))) }
 #[verifier::external_body]
 pub struct Titles { _p: () }
 impl Titles {
@@ -11,6 +18,11 @@ impl Titles {
     pub fn with_title(&self, title: &Rc<String>) -> (r: Self) ensures r.names() == self.names().push(**title) { unimplemented!() }
     #[verifier::external_body]
     pub fn len(&self) -> (r: usize) ensures r == self.names().len() { unimplemented!() }
+    // the header row: one string value per title, in order (src/processor.rs: Titles::to_list — not under contract: assumed)
+    #[verifier::external_body]
+    pub fn to_list(&self) -> (r: Vec<Option<JsonValue>>)
+        ensures r@ == title_values(self.names())
+    { unimplemented!() }
 }
 impl Default for Titles {
     #[verifier::external_body]
